@@ -116,12 +116,37 @@ func verifAssume(c bool) {
 		panic(verifAssumeFail{})
 	}
 }
+// verifActive mirrors the executor's filter: which assertion ids belong to
+// the property being checked.
+func verifActive(id string) bool {
+	ps, ok := verifParams["__props"]
+	if !ok || strings.HasPrefix(id, "MODEL:") {
+		return true
+	}
+	for _, p := range strings.Split(ps, ",") {
+		if p == "*" || strings.HasPrefix(id, p) {
+			return true
+		}
+		if i := strings.Index(id, ":"); i > 0 {
+			for _, q := range strings.Split(id[:i], ",") {
+				if q == p {
+					return true
+				}
+			}
+		}
+	}
+	return false
+}
 func verifAssert(c bool, id string) {
-	if !c {
+	if !c && verifActive(id) {
 		panic(verifAssertFail{id})
 	}
 }
-func verifUnreachable(id string) { panic(verifAssertFail{id}) }
+func verifUnreachable(id string) {
+	if verifActive(id) {
+		panic(verifAssertFail{id})
+	}
+}
 
 // snapshot of a document including the spare slot of every array
 func verifSnap(v interface{}) string {
@@ -153,6 +178,9 @@ func verifFreeze() {
 	}
 }
 func verifThaw() {
+	if verifParams["__frame"] != "1" {
+		return
+	}
 	for i, d := range verifDocs {
 		if i < len(verifSnaps) && verifSnaps[i] != verifSnap(d) {
 			panic(verifAssertFail{"frame-write"})
@@ -244,3 +272,5 @@ var verifAbstractUsed bool
 func verifAbstractFloat() float64 { verifAbstractUsed = true; return math.NaN() }
 
 func verifGrammarAccepts(types []tokType) bool { return verifGrammarAcceptsNative(types) }
+
+func verifFinite(x float64) bool { return !math.IsNaN(x) && !math.IsInf(x, 0) }
